@@ -135,7 +135,7 @@ def wrap(place, lines, w):
 class C12(Engine):
     prop = "C12"
     title = "failure is atomic"
-    quick_budget = 45
+    quick_budget = 90
     quick_runs = 24000
     thorough_budget = 900
     rule = ("run i = history of 3-8 operations on one persistent SimFs workspace (set valid source from the 45-CPU corpus with "
